@@ -1,5 +1,6 @@
 import PallasVerif.Model.Traverse
 import PallasVerif.Proofs.Cbor
+import PallasVerif.Proofs.Traverse
 /-!
 # C30 — Block traversal exposes each transaction with its own parts
 
@@ -200,6 +201,71 @@ theorem tx_count_eq (b : Block B W A) (hw : b.bodies.length ≤ b.wits.length) (
 theorem txs_missing_wits (b : Block B W A) (hw : b.wits.length < b.bodies.length) (hn : b.bodies.length ≤ 4294967296) :
     (cloneTxs b).length = b.wits.length ∧ (cloneTxs b).length < txCount b := by
   rw [cloneTxs_length b hn, txCount]; omega
+
+/-! ## from the wire bytes to the traversed transactions -/
+
+open PallasVerif.TxView PallasVerif.Traverse.Slices in
+/-- **end to end on bytes**: for a block `bs` whose generic parse has the post-Byron shape, with a
+    witness set for every body, the i-th traversed transaction carries the original bytes of the i-th
+    body and of the i-th witness set — both contiguous slices of `bs` —, the auxiliary data the
+    wire map binds to `i` (again a slice of `bs`), and is flagged invalid iff `i` is listed -/
+theorem traverse_bytes (bs : Bytes) (v : BlockView) (hv : viewBlock bs = some v)
+    (hw : v.bodies.length ≤ v.wits.length) (hn : v.bodies.length ≤ 4294967296) (i : Nat) (hi : i < v.bodies.length) :
+    ∃ tx, (cloneTxs (recordOfView v))[i]? = some tx ∧
+      tx.body = (v.bodies[i]).encode ∧ tx.wits = (v.wits[i]'(Nat.lt_of_lt_of_le hi hw)).encode ∧
+      Slice tx.body bs ∧ Slice tx.wits bs ∧
+      tx.aux = lastMatch i (v.auxWire.map fun p => (p.1, p.2.encode)) ∧
+      (∀ a, tx.aux = some a → Slice a bs) ∧
+      (tx.success = false ↔ ∃ xs, v.invalid = some xs ∧ i ∈ xs) := by
+  -- bs is the encoding of the parsed tree
+  have hbs : ∃ top, bs = top.encode ∧ viewBlockItem top = some v := by
+    unfold viewBlock at hv
+    split at hv
+    · rename_i top hp
+      obtain ⟨e, _⟩ := parseItem_sound bs top [] hp
+      exact ⟨top, by simpa using e, hv⟩
+    · cases hv
+  obtain ⟨top, rfl, hvi⟩ := hbs
+  obtain ⟨_, hb, hwt, hax, _, _⟩ := view_parts_are_slices top v hvi
+  have hb' : (recordOfView v).bodies.length = v.bodies.length := by simp [recordOfView]
+  have hw' : (recordOfView v).wits.length = v.wits.length := by simp [recordOfView]
+  have spec := txs_spec (recordOfView v) (by omega) (by omega) i (by omega)
+  refine ⟨_, spec, ?_, ?_, ?_, ?_, ?_, ?_, ?_⟩
+  · simp [expectedTx, recordOfView]
+  · simp [expectedTx, recordOfView]
+  · simp only [expectedTx, recordOfView, List.getElem_map]
+    exact hb _ (List.getElem_mem _)
+  · simp only [expectedTx, recordOfView, List.getElem_map]
+    exact hwt _ (List.getElem_mem _)
+  · simp only [expectedTx, recordOfView]
+    exact aux_keyed_by_index i _
+  · intro a ha
+    simp only [expectedTx, recordOfView] at ha
+    rw [aux_keyed_by_index] at ha
+    obtain ⟨p, hp, rfl⟩ := lastMatch_mem i _ a ha
+    obtain ⟨q, hq, rfl⟩ := List.mem_map.mp hp
+    exact hax q hq
+  · exact is_valid_iff (recordOfView v) i _ _
+where
+  lastMatch_mem {A : Type} (i : Nat) : ∀ (wire : List (Nat × A)) (a : A), lastMatch i wire = some a →
+      ∃ p ∈ wire, p.2 = a
+    | [], a, h => by simp [lastMatch] at h
+    | (k, v) :: rest, a, h => by
+      simp only [lastMatch] at h
+      cases hr : lastMatch i rest with
+      | some x =>
+        simp only [hr] at h
+        have hx : x = a := Option.some.inj h
+        subst hx
+        obtain ⟨p, hp, e⟩ := lastMatch_mem i rest x hr
+        exact ⟨p, List.mem_cons_of_mem _ hp, e⟩
+      | none =>
+        simp only [hr] at h
+        by_cases e : k = i
+        · simp only [e, if_true] at h
+          have hv : v = a := Option.some.inj h
+          exact ⟨(k, v), by simp, hv⟩
+        · simp [e] at h
 
 /-! ## era probe -/
 
